@@ -380,7 +380,10 @@ func VH_C04_WriteReadWrite() {
 		vtimeClass(st, (k*7+c)%24&^1) // hours below 10: SSA writes them as one digit
 		vtimeClass(en, (k*11+5*c)%24&^1)
 		text := []string{"Hello, world", "plain"}[(k+c)%2]
-		it := &Item{StartAt: time.Duration(st), EndAt: time.Duration(en), Style: s.Styles["S1"], InlineStyle: &StyleAttributes{SSAMarked: vboolp(c == 0), SSALayer: vintp(c)},
+		// event margins: one equal to the margin of the cue's style (when the style sets one), one different, one absent;
+		// an effect on the event
+		it := &Item{StartAt: time.Duration(st), EndAt: time.Duration(en), Style: s.Styles["S1"], InlineStyle: &StyleAttributes{SSAMarked: vboolp(c == 0), SSALayer: vintp(c),
+			SSAMarginLeft: vintp(10), SSAMarginVertical: vintp(7 + c), SSAEffect: "Karaoke"},
 			Lines: []Line{{VoiceName: "Bob", Items: []LineItem{{Text: text}}}}}
 		if (k/4)%3 == 2 {
 			// a second line made of two runs, the second one with an override block
@@ -435,6 +438,9 @@ func VH_C04_WriteReadWrite() {
 		vassert(len(it.Lines) >= 1 && it.Lines[0].VoiceName == "Bob" && len(it.Lines[0].Items) == 1 && it.Lines[0].Items[0].Text == m.text, "C04 write->read: text and speaker")
 		vassert(len(it.Lines) == len(s.Items[c].Lines), "C04 write->read: number of lines")
 		vassert(it.Style != nil && it.Style.ID == "S1", "C04 write->read: style reference")
+		ia := it.InlineStyle
+		vassert(ia != nil && ia.SSAMarginLeft != nil && *ia.SSAMarginLeft == 10 && ia.SSAMarginVertical != nil && *ia.SSAMarginVertical == 7+c, "C04 write->read: event margins survive")
+		vassert(ia != nil && ia.SSAEffect == "Karaoke", "C04 write->read: event effect survives")
 	}
 	var b2 bytes.Buffer
 	vassert(r.WriteToSSA(&b2) == nil, "C04 second write succeeds")
